@@ -105,16 +105,16 @@ func scenarios(th bool) []scenario {
 			}
 			// (1b) the same, one level shallower, with deviations: a cache that hits / misses / drops
 			// at any call, a cache write that lands after the next operation has begun
-			b := 1
-			if th {
-				b = 2
-			}
 			for _, h := range histories(alphaLight, dHist-1) {
 				for _, c := range []string{"lru1", "advH", "advM"} {
-					if th {
-						out = append(out, scenario{Class: "hist-dev", PreDirect: pre, Clients: [][]op{h}, Cache: "lru2", Bound: b})
+					out = append(out, scenario{Class: "hist-dev", PreDirect: pre, Clients: [][]op{h}, Cache: c, Bound: 1})
+				}
+			}
+			if th {
+				for _, h := range histories(alphaLight, 3) {
+					for _, c := range []string{"lru1", "lru2", "advH", "advM"} {
+						out = append(out, scenario{Class: "hist-dev2", PreDirect: pre, Clients: [][]op{h}, Cache: c, Bound: 2})
 					}
-					out = append(out, scenario{Class: "hist-dev", PreDirect: pre, Clients: [][]op{h}, Cache: c, Bound: b})
 				}
 			}
 			// (1c) every storage / cache fault at every call
@@ -172,7 +172,11 @@ func scenarios(th bool) []scenario {
 	for _, c := range concs {
 		for _, k := range []string{"advH", "advM", "lru1", "lruN"} {
 			out = append(out, scenario{Class: "conc", PreHash: idx(c.pre), Clients: c.cl, Cache: k, Concurrent: true, Bound: cb})
-			out = append(out, scenario{Class: "conc-fault", PreHash: idx(c.pre), Clients: c.cl, Cache: k, Concurrent: true, Faults: "basic", MaxFaults: 1, Bound: cb})
+			fb := cb
+			if th && (k == "advM" || k == "lruN") {
+				fb = 1
+			}
+			out = append(out, scenario{Class: "conc-fault", PreHash: idx(c.pre), Clients: c.cl, Cache: k, Concurrent: true, Faults: "basic", MaxFaults: 1, Bound: fb})
 		}
 	}
 	return out
@@ -309,6 +313,9 @@ func TestCheck(t *testing.T) {
 			runs[k] = runScenario(sc, direct)
 		}
 		ex := &gate.Explorer{Name: fmt.Sprintf("batch %d", i), Bound: b.bound, Stop: r.Expired, Workers: 1}
+		if b.bound >= 2 && b.scs[0].Concurrent {
+			ex.Workers = 6 // few, large searches: let each use several cores
+		}
 		ex.Run = func(t *testing.T, x *gate.Exec) {
 			k := x.Choose(alts)
 			perClass[b.scs[k].Class].Add(1)
